@@ -215,7 +215,7 @@ class Crazyflie():
         if (self.link is not None):
             self.link.close()
         self.link = None
-        for timer in self._answer_patterns.values():
+        for timer in list(self._answer_patterns.values()):
             timer.cancel()
         self._answer_patterns = {}
         if (self.state == State.INITIALIZED):
@@ -287,7 +287,7 @@ class Crazyflie():
         if (self.link is not None):
             self.link.close()
             self.link = None
-        for timer in self._answer_patterns.values():
+        for timer in list(self._answer_patterns.values()):
             timer.cancel()
         self._answer_patterns = {}
         self.disconnected.call(self.link_uri)
